@@ -4,6 +4,7 @@ pub mod disc;
 pub mod errs;
 pub mod listview;
 pub mod pod;
+pub mod resolve;
 pub mod seeds;
 pub mod tlv;
 pub mod token;
@@ -14,6 +15,10 @@ pub fn generate(prop: &str, tier: &str, rng: &mut Rng) -> Vec<String> {
         "C17" => token::generate_c17(tier, rng),
         "C13" => pod::generate_c13(tier, rng),
         "C18" => disc::generate(tier, rng),
+        "C05" => resolve::generate_c05(tier, rng),
+        "C06" | "C08" => resolve::generate_c06_c08(prop, tier, rng),
+        "C07" => resolve::generate_c07(tier, rng),
+        "C12" => resolve::generate_c12(tier, rng),
         "C02" => tlv::generate_c02(tier, rng),
         "C01" | "C03" | "C04" => tlv::generate_hist(prop, tier, rng),
         "C09" => listview::generate_c09(tier, rng),
@@ -30,6 +35,7 @@ pub fn run(prop: &str, cases: &[String]) -> RunOut {
         "C16" | "C17" => token::run(prop, cases),
         "C13" | "C14" => pod::run(prop, cases),
         "C18" => disc::run(cases),
+        "C05" | "C06" | "C07" | "C08" | "C12" => resolve::run(prop, cases),
         "C01" | "C02" | "C03" | "C04" => tlv::run(prop, cases),
         "C09" | "C10" => listview::run(prop, cases),
         "C11" => seeds::run(cases),
